@@ -32,6 +32,7 @@ def alphabet() -> List[Tuple[str, bytes, int, bool]]:
         ("qm-a", q([("Q", S1.server, 1, 1)]), 5353, False),
         ("legacy-ptr", q([("Q", TA, 12, 1)], id_=0x77), 1234, False),
         ("tc-ptr", q([("Q", TA, 12, 1)], tc=True), 5353, False),
+        ("tc-qu-ptr", q([("Q", TA, 12, 0x8001)], tc=True), 5353, True),
         ("probe-qm", q([("Q", TA, 12, 1)], authorities=[("PTR", TA, 1, 4500, "new._a._tcp.local.")]), 5353, False),
         ("qm-ptr+qu-srv", q([("Q", TA, 12, 1), ("Q", S1.name, 33, 0x8001)]), 5353, True),
         ("qm-ptr+txt", q([("Q", TA, 12, 1), ("Q", S1.name, 16, 1)]), 5353, False),
@@ -55,7 +56,7 @@ def points(tier: str) -> List[Dict[str, Any]]:
     events = [(g, n) for g in GAPS for n in names]
     pts: List[Dict[str, Any]] = []
     depth = 2 if tier == "quick" else 3
-    ev3 = [(g, n) for g in (1, 500, 1001) for n in names[:10:2] + names[10:13]]
+    ev3 = [(g, n) for g in (1, 500, 1001) for n in names[:11:2] + names[11:14]]
     for age in ("recent", "old", "ancient"):
         for jit in (0.0, 1.0):
             for e in events:
@@ -77,7 +78,7 @@ class Lst:
     def update_service(self, zc: Any, t: str, n: str) -> None: self.log.append((self.w.now_ms, "upd", n))
 
 
-def execute(p: Dict[str, Any], mode: str) -> Tuple[List[Tuple[float, tuple, bytes]], List[tuple], List[str]]:
+def execute(p: Dict[str, Any], mode: str) -> Tuple[List[Tuple[float, tuple, bytes]], List[tuple], List[str], List[tuple]]:
     """mode: plain | dup-qm (datagrams without a QU question twice) | dup-all"""
     from zeroconf import RecordUpdateListener
     from zeroconf.asyncio import AsyncServiceBrowser
@@ -117,7 +118,7 @@ def execute(p: Dict[str, Any], mode: str) -> Tuple[List[Tuple[float, tuple, byte
         w.advance(4000)
         trace = [(round(s.t_us / 1000 - t0, 3), s.dest[:2], s.data) for s in w.net.trace[n0:] if s.host == host.name]
         calls = [(round(t - t0, 3),) + tuple(rest) for (t, *rest) in log if t >= t0]
-        return trace, calls, w.exceptions()
+        return trace, calls, w.exceptions(), [(a, b) for a, b, _ in w.draws]
 
 
 def compare(p: Dict[str, Any]) -> Tuple[Optional[str], Optional[str], str]:
@@ -133,6 +134,13 @@ def compare(p: Dict[str, Any]) -> Tuple[Optional[str], Optional[str], str]:
         return f"callbacks differ when QU-free datagrams are doubled: {plain[1]} vs {dqm[1]}", None, obs
     if dqm[0] != plain[0]:
         return ("trace differs when QU-free datagrams are doubled: " + describe_diff(plain[0], dqm[0])), None, obs
+    # "under identical random seeds": a duplicate must not consume randomness either, or every later jittered send moves
+    if dqm[3] != plain[3]:
+        return f"random draws differ when QU-free datagrams are doubled: {plain[3]} vs {dqm[3]}", None, obs
+    tc_draws = lambda run: sum(1 for d in run[3] if d == (400, 500))  # noqa: E731
+    if tc_draws(dall) != tc_draws(dqm):
+        return (f"a duplicated truncated query re-armed its reassembly timer: {tc_draws(dall)} draws of the 400-500 ms hold "
+                f"instead of {tc_draws(dqm)}"), None, obs
     if dall[1] != dqm[1]:
         return f"callbacks differ when QU datagrams are doubled too: {dqm[1]} vs {dall[1]}", None, obs
     if dall[0] == dqm[0]:
@@ -144,10 +152,26 @@ def compare(p: Dict[str, Any]) -> Tuple[Optional[str], Optional[str], str]:
         if dest[0] not in ("224.0.0.251", "ff02::fb"):
             if (t, dest, data) in ref:
                 continue  # a query containing a QU question may be answered by unicast twice
+            # the second answer need not be byte-identical (the first may have been assembled with a truncated
+            # predecessor): it may only repeat records the first unicast reply to that querier carried in that instant
+            first = set()
+            for (t2, dest2, data2) in ref:
+                if t2 == t and dest2 == dest:
+                    first |= {repr(r) for r in wire.decode(data2).records()}
+            if first and {repr(r) for r in wire.decode(data).records()} <= first:
+                continue
             return f"doubling a QU query produced a new unicast datagram at +{t} to {dest}: {wire.decode(data).records()}", None, obs
         # a multicast difference: only the shapes of the known finding are tolerated (and reported)
         if (t, dest, data) in ref:
             finding = f"multicast reply of {len(data)} bytes sent twice at +{t} ms"
+            continue
+        same_instant = set()
+        for (t2, dest2, data2) in ref:
+            if t2 == t and dest2 == dest:
+                same_instant |= {repr(r) for r in wire.decode(data2).records()}
+        if same_instant and {repr(r) for r in wire.decode(data).records()} <= same_instant:
+            # not byte-identical because the first reply also answered a truncated predecessor of the query
+            finding = f"records of the multicast reply at +{t} ms sent a second time in the same instant"
             continue
         # the same records, sent later by at most 500 ms (the QM part was queued twice)?
         recs = Counter(map(repr, wire.decode(data).records()))
@@ -200,8 +224,11 @@ def run(tier: str, seed: int) -> Tuple[Stats, str, List[str], Dict[str, Any]]:
         "a duplicate is the same bytes from the same source delivered twice in the same instant on the same socket",
         "library jitter is constant per triple (all low or all high) because a doubled datagram may consume extra draws",
         "plain vs QU-free-doubled must be identical; all-doubled may only add byte-identical unicast replies, anything "
-        "else is a violation - except the two shapes of the listed known finding (a multicast reply sent twice in the "
-        "same instant / the aggregated reply moved later by <= 500 ms), which are reported as KNOWN-FINDING",
+        "else is a violation - except the shapes of the listed known finding (a multicast reply, or records of it, sent "
+        "a second time in the same instant / the aggregated reply moved later by <= 500 ms), which are reported as "
+        "KNOWN-FINDING; a second unicast answer may only repeat records of the first",
+        "random draws: plain and QU-free-doubled runs must consume identical draws; no run may draw the 400-500 ms "
+        "truncated-query hold more often than the reference",
     ]
     return stats, rule, assumptions, {"points": len(pts), "alphabet": len(alphabet()), "gaps_ms": GAPS}
 
